@@ -46,6 +46,34 @@ func checkResponseCP(w *svcWorld, ex *bed.Exchange) (string, string) {
 		if sc == nil || sc.CP == nil {
 			continue
 		}
+		// every operation of this request that the response acknowledges is stored as offered
+		if req := ex.Req; req != nil {
+			stored := map[uint64]string{}
+			for _, o := range w.b.Ops(dd.DUID) {
+				if o.OpID.CUID == ex.Client.Model.CUID {
+					stored[o.OpID.Seq] = fmt.Sprintf("%d|%s|%s", o.OpID.Lamport, o.OpType, core.Hash(string(o.Body)))
+				}
+			}
+			for _, rp := range req.PushPullPacks {
+				if rp.Key != p.Key {
+					continue
+				}
+				for _, o := range rp.Operations {
+					if o.ID == nil || o.ID.CUID != ex.Client.Model.CUID || o.ID.Seq > p.CheckPoint.Cseq {
+						continue
+					}
+					if p.Option&uint32(model.PushPullBitSubscribe) != 0 {
+						continue // pre-subscription operations are dropped by design
+					}
+					want := fmt.Sprintf("%d|%s|%s", o.ID.Lamport, o.OpType, core.Hash(string(o.Body)))
+					if got, ok := stored[o.ID.Seq]; !ok {
+						return "ack-of-unstored-op", fmt.Sprintf("key %q client %s: the response acknowledges seq %d (checkpoint cseq %d) but no operation of that client with seq %d is stored", p.Key, ex.Client.Alias, o.ID.Seq, p.CheckPoint.Cseq, o.ID.Seq)
+					} else if got != want {
+						return "ack-of-other-op", fmt.Sprintf("key %q client %s: the response acknowledges the pushed operation seq %d, but a different operation is stored under that sequence number (pushed %s, stored %s)", p.Key, ex.Client.Alias, o.ID.Seq, want, got)
+					}
+				}
+			}
+		}
 		if sc.CP.Sseq != p.CheckPoint.Sseq || sc.CP.Cseq != p.CheckPoint.Cseq {
 			return "response-cp-not-stored", fmt.Sprintf("key %q client %s: response checkpoint (%d,%d) but stored checkpoint (%d,%d)", p.Key, ex.Client.Alias, p.CheckPoint.Sseq, p.CheckPoint.Cseq, sc.CP.Sseq, sc.CP.Cseq)
 		}
